@@ -7,6 +7,7 @@
 package main
 
 import (
+	"time"
 	"bytes"
 	"encoding/json"
 	"fmt"
@@ -36,6 +37,19 @@ type fld struct {
 	t        ty
 	exported bool
 }
+
+// named types with String methods (what protoc generates for enums)
+type Lvl int
+
+func (l Lvl) String() string { return fmt.Sprintf("LEVEL_%d", int(l)) }
+
+type Ulvl uint8
+
+func (l Ulvl) String() string { return "U" }
+
+type NickS string
+
+func (n NickS) String() string { return "nick:" + string(n) }
 
 func mkStruct(fs []fld) ty {
 	var sf []reflect.StructField
@@ -710,6 +724,35 @@ func run(c *runner.Ctx) {
 				c.Done(true, 6)
 			}
 		}
+	}
+
+	// named key and value types with a String method of their own (generated enums, time.Month): the document holds
+	// the number / the text, as the standard encoder writes it
+	c.Space("named-types-with-String")
+	named := []struct {
+		desc string
+		v    interface{}
+	}{
+		{"struct{M map[Lvl]int}", struct{ M map[Lvl]int }{map[Lvl]int{0: 1, 3: 2, -1: 3}}},
+		{"struct{M map[NickS]string}", struct{ M map[NickS]string }{map[NickS]string{"a": "x", "": "y"}}},
+		{"struct{M map[time.Month]int64}", struct{ M map[time.Month]int64 }{map[time.Month]int64{time.March: 3, time.December: 12}}},
+		{"struct{A Lvl; B NickS; C []Lvl; D map[string]Lvl}", struct {
+			A Lvl
+			B NickS
+			C []Lvl
+			D map[string]Lvl
+		}{2, "n", []Lvl{0, 1}, map[string]Lvl{"k": 5}}},
+		{"struct{P *struct{M map[Lvl][]NickS}}", struct {
+			P *struct{ M map[Lvl][]NickS }
+		}{&struct{ M map[Lvl][]NickS }{map[Lvl][]NickS{7: {"a", "b"}}}}},
+		{"struct{U map[Ulvl]Lvl}", struct{ U map[Ulvl]Lvl }{map[Ulvl]Lvl{0: 0, 255: 1}}},
+	}
+	for _, nv := range named {
+		if !c.Take() {
+			continue
+		}
+		checkFixed(c, ty{reflect.TypeOf(nv.v), nv.desc, true}, nv.v)
+		c.Done(true, 1)
 	}
 
 	c.Space("no-fields")
